@@ -2,7 +2,10 @@ module verif/harness
 
 go 1.18
 
-require github.com/vimeo/dials v0.0.0
+require (
+	github.com/spf13/pflag v1.0.5
+	github.com/vimeo/dials v0.0.0
+)
 
 require (
 	cuelang.org/go v0.6.0 // indirect
@@ -12,7 +15,6 @@ require (
 	github.com/google/uuid v1.6.0 // indirect
 	github.com/mpvl/unique v0.0.0-20150818121801-cbe035fff7de // indirect
 	github.com/pelletier/go-toml v1.9.5 // indirect
-	github.com/spf13/pflag v1.0.5 // indirect
 	golang.org/x/net v0.30.0 // indirect
 	golang.org/x/sys v0.26.0 // indirect
 	golang.org/x/text v0.19.0 // indirect
